@@ -21,7 +21,7 @@ KINDS = [cg.BASIC, cg.COMPOUND, cg.ORTH, cg.FINAL]
 LEVELS = {
     'quick': [
         {'name': 'L1-N3-M1-K2', 'N': 3, 'M': 1, 'K': 2, 'cstates': 'all', 'budget_s': 60},
-        {'name': 'L2-N3-M2-K1-bco', 'N': 3, 'M': 2, 'K': 1, 'cstates': 'few', 'kinds': 'bco', 'budget_s': 90},
+        {'name': 'L2-N3-M2-K1-bco', 'N': 3, 'M': 2, 'K': 1, 'cstates': 'few', 'kinds': 'bco', 'evented': 1, 'budget_s': 90},
         {'name': 'L3-N4-M1-K1-bco', 'N': 4, 'M': 1, 'K': 1, 'cstates': 'some', 'kinds': 'bco', 'budget_s': 90},
     ],
     'thorough': [
@@ -46,14 +46,15 @@ NC = 2   # conditions of each kind on every state and transition
 
 def shards(level):
     kinds = KINDS[:3] if level.get('kinds') == 'bco' else KINDS
-    return cg.split_shards(cg.skeletons(level['N'], kinds), level['M'], nevents=1)
+    return cg.split_shards(cg.skeletons(level['N'], kinds), level['M'], nevents=1, evented_only=bool(level.get('evented')))
 
 
 def expand(job, level):
     if 'chart' in job:
         yield job['chart']
         return
-    yield from cg.charts(job['skel'], level['M'], nevents=1, targets='free', fix=job.get('fix'))
+    yield from cg.charts(job['skel'], level['M'], nevents=1, targets='free', fix=job.get('fix'),
+                         evented_only=bool(level.get('evented')))
 
 
 def canary_job():
